@@ -91,6 +91,10 @@ def facts(read, die, define):
     if not m:
         die("c13: TSK_MAX_ID is not INT32_MAX - 1 for the 32 bit tsk_id_t")
     out.append("Definition c13_tsk_max_id : Z := %d." % (2 ** 31 - 1 - 1))
+    m = re.search(r"#define\s+TSK_UNKNOWN_TIME_HEX\s+0x([0-9A-Fa-f]{16})ULL", ch)
+    if not m:
+        die("c13: TSK_UNKNOWN_TIME_HEX")
+    out.append("Definition c13_tsk_unknown_time_bits : Z := %d." % int(m.group(1), 16))
     tc = read("c/tskit/tables.c")
     lw = read("python/lwt_interface/tskit_lwt_interface.h")
     for t, cols in RAGGED.items():
